@@ -1411,23 +1411,33 @@ def product_check(ctx, mode, variants, sources, label, validate_each=True, cover
 
 
 def driven_sources(ctx, binp, names, count, cell, extra):
-    """Histories drawn by the seeded driver on the real world (once), to be replayed by every variant of a product."""
+    """Histories drawn by the seeded driver on the real world (once), to be replayed by every variant of a product.
+    Sources hold at most ~60 histories each, so that the logs of a product stay small and the monitors run in parallel."""
     out = []
     d = os.path.join(ctx.work, "driven")
     os.makedirs(d, exist_ok=True)
+    jobs = []
     for k, name in enumerate(names):
         dr = DRIVES[name]
-        cfg = dict(CELLS[cell], comps=dr["comps"], probes=2, seed=ctx.seed * 31 + k, reuse=True, maxent=dr["maxent"])
-        cfg.update(dr.get("extra", {}))
-        cfg.update(extra)
-        lp = os.path.join(d, "gen-%s-%s.ndjson" % (name, cell))
         cnt = count[name] if isinstance(count, dict) else count
-        p, dt = run([binp, "-drive", str(cnt), "-len", str(dr[ctx.tier]["len"]), "-out", lp, "-cfg", json.dumps(cfg)], 900)
+        chunks = max(1, -(-cnt // 60))
+        for ch in range(chunks):
+            cfg = dict(CELLS[cell], comps=dr["comps"], probes=2, seed=ctx.seed * 31 + k + 977 * ch, reuse=True, maxent=dr["maxent"])
+            cfg.update(dr.get("extra", {}))
+            cfg.update(extra)
+            lp = os.path.join(d, "gen-%s-%s-%d.ndjson" % (name, cell, ch))
+            jobs.append((lp, cfg, max(1, cnt // chunks), dr[ctx.tier]["len"]))
+
+    def one(j):
+        lp, cfg, n, ln = j
+        p, dt = run([binp, "-drive", str(n), "-len", str(ln), "-out", lp, "-cfg", json.dumps(cfg)], 900)
         if p.returncode != 0:
             raise Inconclusive("driver failed:\n" + p.stdout[-1500:])
         if os.path.exists(lp) and not os.environ.get("VERIF_KEEP"):
             os.remove(lp)      # only the histories (<log>.seqs) are needed: every variant replays them
-        out.append(("seq", lp + ".seqs", 1000, cfg))
+        return ("seq", lp + ".seqs", 1000, cfg)
+    with ThreadPoolExecutor(max_workers=NCPU) as ex:
+        out = list(ex.map(one, jobs))
     return out
 
 
